@@ -62,7 +62,7 @@ BUILT = {
  "C01": ("E1/E2 input spaces x 32 entry points (incl. serde) + E4 argument/triple products + E3 histories, in an isolated child with watchdog + E6 exhaustive schedule exploration (shuttle DFS) of concurrent callers",
          "bounded-exhaustive enumeration of inputs, arguments, triples and mutation histories on the real code; the oracle is 'the call returns' (catch_unwind, per-case watchdog, child exit status); plus stateless model checking of thread interleavings: shuttle's DFS scheduler enumerates every schedule of 2- and 3-thread bodies over a copy of the library whose std::sync/thread/thread_local tokens are rewritten to shuttle's (termination only)",
          "Every input of the E1 token trees and E2 skeleton/edit neighbourhoods goes through every text-accepting entry point of both crates; every byte string of length <= 2 and boundary-class strings to length 9 are the argument of 15 getter/setter functions on three receivers; every (language, script, region) of the CLDR universe goes through maximize, minimize and character_direction; a fixed list of large inputs runs under the 5 s watchdog; every call of the E3 harnesses is guarded. A panic, hang, abort or stack overflow is a violation attributed to the case. Concurrent callers: the same schedule enumeration over the parse / maximize / minimize / direction families in 'total' mode (a panic, deadlock or livelock under some schedule is a violation; values are not compared).",
-         "Hang = one case current for more than 5 s. Inputs longer than the depth bound and more than k edits from every skeleton are outside.",
+         "Hang = 5 s of CPU time of the executing thread on one case (or 120 s without CPU use). Inputs longer than the depth bound and more than k edits from every skeleton are outside.",
          "DESIGN.md §4 C01"),
  "C04": ("E1/E2 parse route + E4 from_parts product + E3 mutation histories + E6 schedule exploration of concurrent readers of one value",
          "bounded-exhaustive enumeration of values along three routes (accepted inputs, from_parts product, all reachable states of five mutation harnesses); to_string compared with an independent canonicaliser and re-recognised by an independent strict recogniser",
@@ -106,6 +106,23 @@ BUILT = {
          "DESIGN.md §4 C20"),
 }
 
+COUNT_TXT = " Count ladder (DESIGN 0.8): every list position of the grammar at every element count 0..40 [72] in the orders ascending / descending / every rotation / a fixed scramble and with one repeat at every pair of positions, as text (space E2.count)"
+HCOUNT_TXT = " and through the typed API (H-count: whole-list calls and element-by-element linear histories of up to 3n calls, every intermediate state checked with the E3 per-state invariants against the reference model)."
+EXTRA_TEXT = {
+ "C01": COUNT_TXT + HCOUNT_TXT + " serde Deserialize (str, String, JSON) and Serialize are among the entry points. A hang is decided on the CPU time of the executing thread (5 s), or 120 s of wall-clock time without CPU use (blocked).",
+ "C02": COUNT_TXT + " (variants).",
+ "C03": COUNT_TXT + "; all 256 byte values at every byte position of a reduced skeleton set.",
+ "C04": COUNT_TXT + HCOUNT_TXT + " Values whose public field ExtensionsMap::other has been assigned (6 bases x every one and two of the 33 singletons): the text must be the text without them or the text in canonical singleton order.",
+ "C05": COUNT_TXT + HCOUNT_TXT,
+ "C09": " Count pairs (DESIGN 0.8): for the five list positions with set semantics and every n <= 40 [72] the list in every order shape and with one repeat against the same list in ascending order.",
+ "C10": " Clone::clone_from (locale, id, extensions) and mem::take are among the actions; every iterator-returning getter must answer len / size_hint / count / last / nth / fold / skip / step_by like the model's sequence. H-count (DESIGN 0.8): every list dimension at every element count 0..40 [72] in every order shape: whole-list calls and element-by-element linear histories of up to 3n calls with has_* probes over the whole alphabet, every intermediate state checked.",
+ "C12": COUNT_TXT + HCOUNT_TXT,
+ "C13": COUNT_TXT + HCOUNT_TXT,
+ "C14": " Every real-world variant word (217 registered variants) alone and beside another variant on every language listed right-to-left or multi-direction x scripts x regions. The 710 layout locales also through the facade crates built with likely-subtags requested through one facade only (Cargo feature forwarding is part of the configuration).",
+ "C17": COUNT_TXT + HCOUNT_TXT + " from_parts on every list of the ladder is compared with parsing the joined text.",
+ "C19": COUNT_TXT + " (variants).",
+}
+
 def main():
     props = [json.loads(l) for l in open('/verif/properties.jsonl')]
     checks, na = [], []
@@ -113,6 +130,7 @@ def main():
         pid = p['id']
         if pid in BUILT:
             eng, tech, text, note, ref = BUILT[pid]
+            text = text + EXTRA_TEXT.get(pid, "")
             checks.append({
                 "property_id": pid,
                 "quick_cmd": f"./check {pid} quick",
